@@ -70,14 +70,14 @@ func init() {
 		Assume:    commonAssume,
 		Technique: "deterministic simulation: seeded history search over version options, differential observation + reference-codec version detection"})
 	register(&PropDef{ID: "C19", Engine: "H", Profile: "lock", Hooks: hooksC19, Gen: genPlanC19, Level: "exploration", QuickS: 40, ThorS: 480,
-		Rule:      "one evaluation = one seeded sequence of writer sessions and reader sessions (1-3 read-only handles) on one directory with conflicting Open attempts, Opens that fail for other reasons (missing directory, damaged index header, unaligned index) and index loss between sessions, read-only sessions on a damaged newest log and on what a crashed delete leaves behind, two read-only handles on a directory without segments; Open must succeed exactly when the lock state machine allows it, a failed Open must leave the lock free, read-only handles must reject Publish/Delete, answer the battery like the model and like the writer, and leave every *.log byte-identical; distinct_nontrivial counts distinct state signatures of runs with a refused conflicting Open or a checked read-only battery",
+		Rule:      "one evaluation = one seeded sequence of writer sessions and reader sessions (1-3 read-only handles) on one directory with conflicting Open attempts, Opens that fail for other reasons (missing directory, damaged index header, unaligned index, a stray file named *.log without an offset so that listing the segments fails) and index loss between sessions, read-only sessions on a damaged newest log and on what a crashed delete leaves behind, two read-only handles on a directory without segments; Open must succeed exactly when the lock state machine allows it, a failed Open must leave the lock free, read-only handles must reject Publish/Delete, answer the battery like the model and like the writer, and leave every *.log byte-identical; distinct_nontrivial counts distinct state signatures of runs with a refused conflicting Open or a checked read-only battery",
 		Trigger:   []string{"open_conflict", "ro_battery"},
 		Assume:    append([]string{"several handles in one process stand for several processes: flock(2) conflicts apply between open file descriptions"}, commonAssume...),
 		Technique: "deterministic simulation: seeded multi-handle open/close sequences vs lock state machine; differential read-only observation"})
 	register(&PropDef{ID: "C20", Engine: "H", Profile: "backup", Hooks: hooksC20, Gen: genPlanC20, Level: "exploration", QuickS: 40, ThorS: 480,
-		Rule:      "one evaluation = one seeded history with Log.Backup (a fifth through a read-only handle as its first call, index files lost) / package-level Backup into empty directories and repeated into the same directory across publish-only gaps (rollovers included); after each backup: Check(target), target log files = source log files, target index files the source's or implied by their log, observation battery of the opened target = battery of the source at the time of the call, source bytes unchanged; distinct_nontrivial counts distinct state signatures of runs with a repeated backup",
+		Rule:      "one evaluation = one seeded history with Log.Backup (a fifth through a read-only handle as its first call, index files lost) / package-level Backup into empty directories and repeated into the same directory across publish-only gaps (rollovers included; before a repeated backup the modification time of every source file is set from the plan: equal to its copy's, as under a coarse clock, or later); after each backup: Check(target), target log files = source log files, target index files the source's or implied by their log, observation battery of the opened target = battery of the source at the time of the call, source bytes unchanged; distinct_nontrivial counts distinct state signatures of runs with a repeated backup",
 		Trigger:   []string{"backup_repeated"},
-		Assume:    append([]string{"kernel mtime is real (the skip rule compares size and mtime); the property is stated for append-only sources, where a size change accompanies every content change"}, commonAssume...),
+		Assume:    append([]string{"file modification times before a repeated backup are chosen by the plan (equal to the copy's or later), at a first backup they are the kernel's; the property is stated for append-only sources, where a size change accompanies every content change"}, commonAssume...),
 		Technique: "deterministic simulation: seeded history search with repeated backups, differential observation source vs opened backup"})
 	kAssume := append([]string{
 		"crash model of C05/C06: a single write is atomic up to the torn variants generated; directory operations are durable in program order; 8-byte file headers are written atomically",
